@@ -26,6 +26,7 @@ def constants(h: listhost.Host, *, depth: int, lens: str, mode: str, idx: str = 
               steps: str = '{NoneV, 1, 2, -1, -2}',
               maxlen: int = 5, ops: str = ALL_OPS, attached: bool = True) -> dict[str, str]:
     return dict(Types=h.tla_types(), InitTypeSet=h.tla_init_types(), Views=h.tla_views(), Vals='1..2',
+                InPlace='{' + ', '.join(f'"{t}"' for t in getattr(h, 'inplace_types', h.types)) + '}',
                 InitLens=lens, MaxLen=str(maxlen), MaxBatch=str(batch), IdxDom=idx, StepDom=steps, SliceMode=f'"{mode}"',
                 Ops=ops, Depth=str(depth), Attached='TRUE' if attached else 'FALSE')
 
